@@ -37,7 +37,7 @@ import (
 )
 
 type kase struct {
-	Kind string `json:"kind"` // verify | rt | pair | rel
+	Kind string `json:"kind"` // verify | rt | pair | rel | seq
 	// verify
 	Sk      string `json:"sk,omitempty"`  // secret key, hex big-endian
 	Msg     string `json:"msg,omitempty"` // message, hex
@@ -61,6 +61,7 @@ type kase struct {
 	B  string `json:"b,omitempty"`
 	PI int    `json:"pi,omitempty"`
 	QI int    `json:"qi,omitempty"`
+	RI int    `json:"ri,omitempty"` // seq: third pool index of a triple, -1 for a pair
 }
 
 func hx(b []byte) string { return hex.EncodeToString(b) }
@@ -791,6 +792,19 @@ func run(c *fw.Ctx) {
 		finish("related messages")
 		return
 	}
+	// ---- part 0b: call sequences (result isolation, history independence, dirty destinations), see seq.go
+	enumSeq(func(k kase) {
+		if stop || !mine() {
+			return
+		}
+		checkSeq(c, k)
+		executed()
+	})
+	if stop {
+		finish("call sequences")
+		return
+	}
+	c.Sample(kase{Kind: "seq", Class: "sign-verify", PI: 0, QI: 1, RI: 2})
 	c.Sample(kase{Kind: "rel", Sk: hx(e.keys[3].Bytes()), Msg: hx(relBase(33, "lead0", "sample")), Rel: hx(relBase(33, "lead0", "sample")[1:]), Order: "r-first", Class: "drop-leading-zeros/len33/lead0"})
 
 	// ---- part 1: round trips
@@ -1111,6 +1125,8 @@ func replay(c *fw.Ctx, raw json.RawMessage) {
 		checkPair(c, newEnv(c.Thorough()), k)
 	case "rel":
 		checkRelated(c, k)
+	case "seq":
+		checkSeq(c, k)
 	default:
 		panic("unknown case kind " + k.Kind)
 	}
@@ -1122,6 +1138,7 @@ func main() {
 		Level: "exploration",
 		Rule: "a case is (secret key, message, presented public-key bytes, pk parse path, presented signature bytes, sig parse path) " +
 			"or one (key, base message, structurally related message, processing order) quadruple on its own salted base bytes, " +
+			"or one call sequence (ordered pair / triple of a 6-item pool, per function family), " +
 			"or one round-trip value/constructor or one pairing exponent pair; byte strings within one context are de-duplicated " +
 			"(structured mutants equal to the honest bytes, to each other, or within the enumerated flip distance are dropped), so every " +
 			"counted case is distinct by construction; non-trivial = every case except none (each presents either the honest bytes or a " +
